@@ -9,7 +9,9 @@ Log == ndJsonDeserialize("trace.ndjson")
 VARIABLES l, bad
 vars == <<l, bad>>
 (* host_alt: a second admissible Host value (the authority without its default port) *)
-Why(e) == IF e.plain THEN "plaintext connection"
+(* noreq: a connection on which nothing at all was sent (a handshake the client gave up) is no request *)
+Why(e) == IF "noreq_ok" \in DOMAIN e /\ e.noreq_ok /\ e.raw = <<>> /\ ~e.plain THEN ""
+          ELSE IF e.plain THEN "plaintext connection"
           ELSE IF e.resumed THEN "TLS session resumed: the client presented an identifier a server gave it earlier"
           ELSE IF e.clientcert THEN "client certificate presented"
           ELSE IF ~ \/ RequestOK(e.raw, e.host, e.accept, e.path, e.query)
